@@ -21,7 +21,9 @@ import vlib
 
 LEVEL = "proof"
 MODULE = "Sqfs.Props.C16"
-REQUIRED = ["Sqfs.C16.split_print_roundtrip"]
+REQUIRED = ["Sqfs.C16.split_print_roundtrip", "Sqfs.C16.handle_print_roundtrip", "Sqfs.C16.handle_print_roundtrip_line",
+            "Sqfs.C16.describe_roundtrip", "Sqfs.C16.split_never_fuel", "Sqfs.C16.split_dst_le_src", "Sqfs.C16.parse_print_dec",
+            "Sqfs.C16.parse_print_mode", "Sqfs.C16.device_number_roundtrip"]
 
 SP, TAB, DQ, BS, CR, HASH = 0x20, 0x09, 0x22, 0x5c, 0x0d, 0x23
 CORE = [SP, TAB, DQ, BS, CR, HASH]
